@@ -70,6 +70,15 @@ def scenarios(tier, rng):
                 nth = 1 + sum(1 for x in pre if pk == "PUBACK" and x.get("q") == 1)
                 out.append({"id": "f%d" % i, "letters": pre + seq, "handler": True, "slow": False, "faults": [{"p": pk, "n": nth, "o": o}]})
                 i += 1
+    # a client with MaxPayloadLen configured (the limit on what the APPLICATION may publish): inbound messages within that
+    # limit -- payload just below it, so that topic + payload, or the whole packet, exceed the number -- flow as ever
+    for mx in (32, 64, 300):
+        for seq in ([Q1], [Q2, R], [{"p": "PUB", "q": 0, "id": 0, "dup": False}, Q1, Q2, R], [Q1, dict(Q1, id=3), Q2, dict(Q2, dup=True), R]):
+            for tp in ("", "a/b/c/d/e/f", "s/\u6e29\u5ea6/z\u00fcrich"):
+                out.append({"id": "m%d" % i, "letters": seq, "handler": True, "slow": False, "topic": tp, "maxPayload": mx, "payloadLen": mx - 1})
+                i += 1
+                out.append({"id": "m%d" % i, "letters": seq, "handler": True, "slow": False, "topic": tp, "maxPayload": mx, "payloadLen": mx - 6})
+                i += 1
     nrand = 3000 if tier == "quick" else 40000
     for j in range(nrand):
         ln = rng.randint(full + 1, 40 if j % 4 == 0 else 9)
